@@ -3,18 +3,24 @@
     A case is a history of API-level operations on ONE storage (one resource kind of one manager or
     track) executed sequentially: every [OCreate] runs the gameplay thread's steps of
     [try_reserve; insert_with_key] to completion, every [OCallback] runs the audio thread's
-    [remove_and_add] to completion.  [mask] selects which observables the harness could observe for
-    the resource kind at hand (bits below). *)
+    [remove_and_add] to completion.  [OCreateFailing late built] is a creation attempt that fails:
+    [late = false] — the fallible part runs before [try_reserve] ([into_sound] returns [Err] or unwinds:
+    [built = false]; an effect of a sub-track unwinds out of [init]: [built = true]), step [G_fail];
+    [late = true] — user code unwinds with the key reserved ([ModulatorBuilder::build]: [built = false];
+    [Effect::init] of a send track's effect: [built = true]): [G_reserve] then [X_fail_late] of the
+    extension.  [mask] selects which observables the harness could observe for the resource kind at hand
+    (bits below). *)
 From Coq Require Import ZArith List Bool Arith.
 From KV Require Import Base.Outcome Base.Corr C08.Model.
 Import ListNotations.
 
-Inductive op := OCreate | OMark (p : Z) | OCallback.
+Inductive op := OCreate | OMark (p : Z) | OCallback | OCreateFailing (late built : bool).
 
 Inductive case :=
 | CHist (selfref prebuild : bool) (cap : Z) (mask : Z) (ops : list op)
 (** a raw schedule of step labels (0 G_reserve, 1 G_drain_one, 2 G_drain_done, 3 G_push, 4 A_start,
-    5 A_remove, 6 A_add, 7 A_push, 100 + p: G_mark p); observable: summary of the final state *)
+    5 A_remove, 6 A_add, 7 A_push, 8 G_fail false, 9 G_fail true, 100 + p: G_mark p); observable: summary
+    of the final state *)
 | CSched (selfref prebuild : bool) (cap : Z) (labels : list Z).
 
 (** mask bits *)
@@ -89,6 +95,18 @@ Fixpoint run_ops (cf : cfg) (mask : Z) (ops : list op) (s : state) : list Z :=
       | Ok s1 => suffix mask s s1 ++ run_ops cf mask rest s1
       | _ => [3%Z]
       end
+  | OCreateFailing late built :: rest =>
+      (* 4: the attempt failed the intended way; 1: the limit error came first (key reserved first, storage
+         full: the user code never ran) *)
+      let sched := if late then [XL G_reserve; X_fail_late built] else [XL (G_fail built)] in
+      match xrun cf sched (mkX s []) with
+      | Ok x =>
+          let s1 := xs x in
+          (if late && negb (length (x_leaked x) =? 1) then [1%Z] else [4%Z])
+          ++ suffix mask s s1 ++ run_ops cf mask rest s1
+      | Panic w => [2%Z; panic_code w]
+      | Hang => [3%Z]
+      end
   | OCallback :: rest =>
       match run cf (callback_sched cf s) s with
       | Ok s1 => 0%Z :: callback_obs mask s1 ++ suffix mask s s1 ++ run_ops cf mask rest s1
@@ -101,6 +119,7 @@ Definition label_of_Z (z : Z) : label :=
   match z with
   | 0 => G_reserve | 1 => G_drain_one | 2 => G_drain_done | 3 => G_push
   | 4 => A_start | 5 => A_remove | 6 => A_add | 7 => A_push
+  | 8 => G_fail false | 9 => G_fail true
   | _ => G_mark (Z.to_nat (z - 100))
   end%Z.
 
